@@ -7,9 +7,14 @@ Calls of module-level helper functions of __main__.py are FOLLOWED: the helper's
 replaced by the argument expressions, its locals renamed apart, `return e` at its end bound to the call's target), so the
 order of side effects is that of the program; a list comprehension bound to a name is read as the loop it abbreviates.
 `with P.open(..) as F: X = json.load(F)` is read as `X = json.load(P.open(..))` (see open_with_to_load for the conditions and why
-closing the stream earlier or later does not matter to what is extracted here).
-Fail-closed: an unknown call in main, a conditional / swallowed validation, another way of validating, a helper with an
-early return / nested function / star-arguments / DECORATOR (functools.lru_cache on a loading helper is not transparent: a later
+closing the stream earlier or later does not matter to what is extracted here); in a followed helper the same holds for
+`with P.open(..) as F: return json.load(F)` (with_return_to_load).  A helper whose `return`s all stand in TAIL position (the last
+statement of the body, or of a branch of an if/else that is itself in tail position) is spliced in with each return turned into the
+binding of the call's target (tail_returns).  An `except` handler must END in a `raise` statement: `raise e` and the bare `raise`
+both leave the handler by raising (the bare form always re-raises the exception being handled), so neither swallows a failed validation;
+LOGGER.<level>(...) calls - f-string or lazy %-style arguments alike - are judged by name and have no effect on the three effects.
+Fail-closed: an unknown call in main, a conditional / swallowed validation, another way of validating, a helper with a
+return that is not in tail position / nested function / star-arguments / DECORATOR (functools.lru_cache on a loading helper is not transparent: a later
 call in the same process would skip reading and validating the file - the process-history stream of the check exhibits it) /
 recursion, any other `with` -> exit 3.
 usage: x_main.py <out.v> [<info.json>]
@@ -34,6 +39,8 @@ HARMLESS = {"get_parser", "parser.parse_args", "ir.files", "os.fspath", "json.lo
 
 def schema_expr(e, env, file_obj):
     """evaluate the schema expression to a JSON object (dict); env: name -> expression"""
+    if e is None:
+        raise Reject("the schema argument is bound more than once / under a condition in main")
     if isinstance(e, ast.Name):
         if e.id not in env:
             raise Reject("schema argument %s is not bound in main" % e.id)
@@ -96,6 +103,64 @@ def _assigned_names(stmts):
     return out
 
 
+
+# ------------------------------------------------------------------------------------------------ returns in followed helpers
+# (1) with P.open(<constants>) as F:  [LOGGER.<level>(...)]*  return json.load(F)          inside a followed helper
+#     is read as                      [LOGGER.<level>(...)]*  return json.load(P.open(<constants>))
+#     Conditions: one `with` item, P and F different names, the `return` is the LAST statement of the `with` body and the only non-logging one,
+#     F occurs exactly twice in the whole helper (the `as` binding and the argument of json.load).
+#     Soundness: the argument of open_with_to_load below, word for word - for the streams `open` returns, __enter__ returns the stream itself and
+#     __exit__ closes it and returns None (never swallows an exception).  `return e` inside a `with` evaluates e, runs __exit__, then returns the
+#     value; if json.load raises, __exit__ runs and the exception propagates.  So the helper returns the same parsed value or raises the same
+#     exception at the same point as the rewritten one; they differ only in WHEN the stream is closed, which none of the three effects nor the
+#     schema object depends on.  A single read of F matters (a second read would see EOF); any other context manager is left alone and the
+#     helper is then REJECTED (return outside tail position).
+# (2) tail returns: the statement list of a helper is in "tail form" when every `return` is the last statement of the body or the last
+#     statement of a branch of an `if` / `else` that is itself the last statement of a block in tail form.  Calling such a helper and binding
+#     its result to X is the body with every `return e` replaced by `X = e` (by the expression statement `e` when the result is discarded) and
+#     every block end without a return by `X = None`: nothing of the helper runs after a return in tail position, so control reaches the
+#     caller's next statement in both programs, having performed the same evaluations in the same order; X is written exactly once, as the last
+#     action (reads of a caller variable that was passed as an argument - even X itself - precede it).  A `return` anywhere else (inside a loop,
+#     a `try`, a `with` other than (1), or followed by further statements) is REJECTED as before - except the guard form `if c: ...; return e`
+#     followed by REST, which is first written as `if c: ...; return e  else: REST` (the same program: REST runs iff the branch was not taken).  The `if` that results is then judged by the
+#     rules for main itself (validation / create / plugin under a condition are rejected).
+def with_return_to_load(stmts, uses):
+    out = []
+    for st in stmts:
+        if isinstance(st, ast.With) and len(st.items) == 1 and isinstance(st.items[0].optional_vars, ast.Name) and st.body:
+            ce, f, last = st.items[0].context_expr, st.items[0].optional_vars.id, st.body[-1]
+            if (isinstance(ce, ast.Call) and isinstance(ce.func, ast.Attribute) and ce.func.attr == "open" and isinstance(ce.func.value, ast.Name)
+                    and ce.func.value.id != f and _const_args(ce) and all(_is_logger(b) for b in st.body[:-1])
+                    and isinstance(last, ast.Return) and isinstance(last.value, ast.Call) and U(last.value.func) == "json.load"
+                    and len(last.value.args) == 1 and not last.value.keywords and isinstance(last.value.args[0], ast.Name) and last.value.args[0].id == f
+                    and sum(1 for n in ast.walk(st) if isinstance(n, ast.Name) and n.id == f) == 2 and uses.get(f) == 2):
+                out += st.body[:-1]
+                out.append(ast.copy_location(ast.parse("return json.load(%s)" % U(ce)).body[0], st))
+                continue
+        if isinstance(st, ast.If):
+            st.body, st.orelse = with_return_to_load(st.body, uses), with_return_to_load(st.orelse, uses)
+        out.append(st)
+    return out
+
+
+def tail_returns(stmts, conv):
+    """the block with each `return e` in tail position replaced by conv(e), and each tail end without a return by conv(None)"""
+    for i, st in enumerate(stmts[:-1]):
+        # `if c: <...; return e>` followed by REST  ==  `if c: <...; return e> else: REST`  (the branch leaves the function, so REST runs iff c is false)
+        if isinstance(st, ast.If) and not st.orelse and st.body and isinstance(st.body[-1], ast.Return):
+            stmts = stmts[:i] + [ast.copy_location(ast.If(test=st.test, body=st.body, orelse=stmts[i + 1:]), st)]
+            break
+    if not stmts:
+        return conv(None)
+    last = stmts[-1]
+    if isinstance(last, ast.Return):
+        return stmts[:-1] + conv(last.value)
+    if isinstance(last, ast.If) and any(isinstance(n, ast.Return) for n in ast.walk(last)):
+        new = ast.If(test=last.test, body=tail_returns(last.body, conv) or [ast.Pass()], orelse=tail_returns(last.orelse, conv))
+        return stmts[:-1] + [ast.copy_location(new, last)]
+    return stmts + conv(None)
+
+
 class Inliner:
     """splices the bodies of module-level helper functions into the statement list of main"""
 
@@ -130,12 +195,29 @@ class Inliner:
         pre = []
         self.count += 1
         tag = "%s__%d__" % (fn.name, self.count)
-        body = [st for st in fn.body if not (isinstance(st, ast.Expr) and isinstance(st.value, ast.Constant))]
-        ret = None
-        if body and isinstance(body[-1], ast.Return):
+        body = [st for st in ast.parse(U(fn)).body[0].body if not (isinstance(st, ast.Expr) and isinstance(st.value, ast.Constant))]      # a private copy
+        uses = {}
+        for n in ast.walk(fn):
+            if isinstance(n, ast.Name):
+                uses[n.id] = uses.get(n.id, 0) + 1
+        body = with_return_to_load(body, uses)
+        ret, branchy = None, False
+        if body and any(isinstance(st, ast.If) and any(isinstance(n, ast.Return) for n in ast.walk(st)) for st in body):
+            # returns in tail position of if / else branches: each becomes the binding of the call's target (see tail_returns)
+            branchy = True
+            rname = "__result__"
+            if rname in uses or rname in params:
+                raise Reject("helper %s uses the name %s" % (fn.name, rname))
+
+            def conv(value):
+                if target is not None:
+                    return [ast.Assign(targets=[ast.Name(id=rname, ctx=ast.Store())], value=value if value is not None else ast.Constant(value=None), lineno=call.lineno)]
+                return [ast.Expr(value=value, lineno=call.lineno)] if value is not None else []
+            body = tail_returns(body, conv)
+        elif body and isinstance(body[-1], ast.Return):
             ret, body = body[-1].value, body[:-1]
         if any(isinstance(n, ast.Return) for st in body for n in ast.walk(st)):
-            raise Reject("helper %s returns before its last statement" % fn.name)
+            raise Reject("helper %s returns before its last statement (a return outside tail position)" % fn.name)
         local = _assigned_names(body)
         mapping = {}
         for prm in params:
@@ -154,7 +236,11 @@ class Inliner:
         for n in local:
             if n not in mapping:
                 mapping[n] = tag + n
-        if target is not None and isinstance(ret, ast.Name) and ret.id in local and ret.id not in params:
+        if branchy and target is not None:
+            mapping["__result__"] = target                 # the tail bindings write the caller's variable
+        if branchy:
+            tail = []                                      # every tail of the body binds the target already
+        elif target is not None and isinstance(ret, ast.Name) and ret.id in local and ret.id not in params:
             mapping[ret.id] = target                       # the returned local IS the caller's variable
             tail = []
         elif ret is not None and target is not None:
